@@ -364,6 +364,23 @@ def canon_test(t: ast.AST) -> Tuple[str, bool]:
     return ast.dump(t), pol
 
 
+def _kind_test(t: ast.AST):
+    """(subject dump, 'int'|'Expr', polarity) for type(x) is int / isinstance(x, int) / isinstance(x, Expr)"""
+    pol = True
+    while isinstance(t, ast.UnaryOp) and isinstance(t.op, ast.Not):
+        t, pol = t.operand, not pol
+    if isinstance(t, ast.Compare) and len(t.ops) == 1 and isinstance(t.ops[0], (ast.Is, ast.IsNot)):
+        a, b = t.left, t.comparators[0]
+        if isinstance(a, ast.Call) and isinstance(a.func, ast.Name) and a.func.id == "type" and len(a.args) == 1 and isinstance(b, ast.Name) and b.id == "int":
+            return ast.dump(a.args[0]), "int", pol == isinstance(t.ops[0], ast.Is)
+    if isinstance(t, ast.Call) and isinstance(t.func, ast.Name) and t.func.id == "isinstance" and len(t.args) == 2 and isinstance(t.args[1], ast.Name):
+        if t.args[1].id == "int":
+            return ast.dump(t.args[0]), "int", pol
+        if t.args[1].id == "Expr":
+            return ast.dump(t.args[0]), "Expr", pol
+    return None
+
+
 def decide(test: ast.AST) -> Optional[bool]:
     if isinstance(test, ast.Constant):
         return bool(test.value)
@@ -616,7 +633,9 @@ class _Walker:
     def _call(self, e: ast.Call, top_site: bool) -> ast.AST:
         func = e.func
         # receiver / function expression
-        if isinstance(func, ast.Attribute):
+        if isinstance(func, ast.Attribute) and isinstance(func.value, ast.Name) and func.value.id == self.selfname and func.attr in self.res.attrs:
+            fexpr = clone(self.res.attrs[func.attr])  # a callable stored on the instance (lambda / closure)
+        elif isinstance(func, ast.Attribute):
             recv = self._eval(func.value, True)
             fexpr = ast.Attribute(value=recv, attr=func.attr, ctx=ast.Load())
         else:
@@ -943,6 +962,18 @@ class _Walker:
             gk, gpol = canon_test(g)
             if gk == key:
                 return pol if gpol == kpol else (not pol)
+        # a Python int is not a PyTeal Expr: `type(x) is int` / `isinstance(x, int)` and
+        # `isinstance(x, Expr)` exclude each other
+        mine = _kind_test(t)
+        if mine is not None:
+            subj, kind, tpol = mine
+            for g, pol in self.guards:
+                other = _kind_test(g)
+                if other is None:
+                    continue
+                osubj, okind, opol = other
+                if osubj == subj and okind != kind and (pol == opol):  # the other kind is known to hold
+                    return not tpol
         if isinstance(t, ast.UnaryOp) and isinstance(t.op, ast.Not):
             r = self._path_lookup(t.operand)
             return None if r is None else (not r)
